@@ -220,3 +220,14 @@ def run(model, col, tier):
             ob.rule = "R14.6"
             col.obligations.append(ob)
     # (that AddModule enters every function of a module under its IR name is R16.3 `AddModule merges module.Functions`, shared above)
+    # two exported functions of one name would make the later definition replace the earlier one in Module.Functions while calls to
+    # the earlier one keep its argument count: the exported-function validator must be in the pipeline, gate, and be asked
+    from ..pipeline import Pipeline
+
+    pipe14 = Pipeline(model)
+    col.check("ValidateExportedFunctions" in pipe14.ast_passes, "R14.6", "nsl/Compiler.py::astPasses contains ValidateExportedFunctions", "exported names are checked for uniqueness",
+              "ValidateExportedFunctions is not in the AST pass list: nothing rejects two exported functions of one name", "nsl/Compiler.py", pipe14.cls.node)
+    if "ValidateExportedFunctions" in pipe14.ast_passes:
+        pipe14.check_validator(col, "R14.6", "ValidateExportedFunctions")
+    pipe14.makepass_process(col, "R14.6")
+    pipe14.check_gating(col, "R14.6")
